@@ -848,6 +848,8 @@ impl FatVolume {
                             block,
                         ) {
                             Err(Error::NotFound) => continue,
+                            // the end-of-directory marker was reached
+                            Err(Error::EndOfFile) => return Err(Error::NotFound),
                             x => return x,
                         }
                     }
@@ -882,6 +884,8 @@ impl FatVolume {
                             block,
                         ) {
                             Err(Error::NotFound) => continue,
+                            // the end-of-directory marker was reached
+                            Err(Error::EndOfFile) => return Err(Error::NotFound),
                             x => return x,
                         }
                     }
@@ -913,8 +917,9 @@ impl FatVolume {
         for (i, dir_entry_bytes) in block.chunks_exact(OnDiskDirEntry::LEN).enumerate() {
             let dir_entry = OnDiskDirEntry::new(dir_entry_bytes);
             if dir_entry.is_end() {
-                // Can quit early
-                break;
+                // The directory ends here - not just this block: whatever
+                // follows, in this block or a later one, is not part of it
+                return Err(Error::EndOfFile);
             } else if dir_entry.is_valid() && !dir_entry.is_lfn() && dir_entry.matches(match_name) {
                 // Found it
                 // Block::LEN always fits on a u32
@@ -963,6 +968,8 @@ impl FatVolume {
                             Err(Error::NotFound) => {
                                 // Carry on
                             }
+                            // the end-of-directory marker was reached
+                            Err(Error::EndOfFile) => return Err(Error::NotFound),
                             x => {
                                 // Either we deleted it OK, or there was some
                                 // catastrophic error reading/writing the disk.
@@ -1006,6 +1013,8 @@ impl FatVolume {
                                 // Carry on
                                 continue;
                             }
+                            // the end-of-directory marker was reached
+                            Err(Error::EndOfFile) => return Err(Error::NotFound),
                             x => {
                                 // Either we deleted it OK, or there was some
                                 // catastrophic error reading/writing the disk.
@@ -1049,8 +1058,8 @@ impl FatVolume {
         for (i, dir_entry_bytes) in block.chunks_exact_mut(OnDiskDirEntry::LEN).enumerate() {
             let dir_entry = OnDiskDirEntry::new(dir_entry_bytes);
             if dir_entry.is_end() {
-                // Can quit early
-                break;
+                // the end of the directory, see find_entry_in_block
+                return Err(Error::EndOfFile);
             } else if dir_entry.is_valid() && !dir_entry.is_lfn() && dir_entry.matches(match_name) {
                 let start = i * OnDiskDirEntry::LEN;
                 // set first byte to the 'unused' marker
